@@ -95,7 +95,7 @@ def run(tier, seed):
             cc.append(Case('cfg%d_mapToFr_%d' % (di, n), 'crypto', 'zzC12_mapToFr', [n], opts={'setup': 'symex.setup_c:with_galg_bytes', 'c_defs': defs}))
         cc.append(Case('cfg%d_keygen_bls' % di, 'crypto', 'zzC12_bls', [32], opts={'setup': 'symex.setup_c:with_galg_bytes', 'c_defs': defs}))
     nres, nsame, ndiff = nocgo_identity()
-    rc |= run_check('C20', cc, tier, seed, setup='symex.setup_c:with_c', evidence_name='C20_cglue', pre_results=[nres],
+    rc |= run_check('C20', cc, tier, seed, setup='symex.setup_c:with_c', evidence_name='C20_cglue', pre_results=[nres], replay_env='export CGO_CFLAGS="-O2 -D__BLST_PORTABLE__"   # the README portable build',
         functions=['C:E1_read_bytes / E1_write_bytes / E2_read_bytes / E2_write_bytes / Fr_read_bytes / Fr_star_read_bytes / map_bytes_to_Fr / Fr_from_be_bytes compiled with ' + ' and with '.join(' '.join(d) for d in PORTABLE)],
         bounds={'configurations': 'LLVM IR of the four C units compiled with the default cgo flags plus %s (the README portable build) -- the same C05 / C12 lemmas as for the default -D__ADX__ IR' % ' / '.join(' '.join(d) for d in PORTABLE),
                 'no_cgo': '%d functions of ecdsa.go, sign.go, common.go, hash/ and random/ have byte-identical SSA in the CGO_ENABLED=0 -tags no_cgo build and in the default build (%d differ)' % (nsame, len(ndiff)),
